@@ -208,3 +208,55 @@ func hasTransactionID(st *types.Struct, depth int) bool {
 	}
 	return false
 }
+
+// thinTarget follows "thin wrappers": a function whose body does nothing but call one other
+// function of the same package with exactly its own parameters, in order, and return that
+// call's results. The rule then examines the callee, where the code lives. Applied up to
+// two levels.
+func thinTarget(fn *ssa.Function) *ssa.Function {
+	for depth := 0; depth < 2; depth++ {
+		if fn == nil || len(fn.Blocks) != 1 {
+			return fn
+		}
+		var call *ssa.Call
+		ok := true
+		for _, in := range fn.Blocks[0].Instrs {
+			switch x := in.(type) {
+			case *ssa.Call:
+				if call != nil {
+					ok = false
+				}
+				call = x
+			case *ssa.Extract, *ssa.Return, *ssa.DebugRef:
+			case *ssa.UnOp:
+				// load of a spilled parameter (value receivers)
+			case *ssa.Alloc, *ssa.Store:
+				// parameter spill
+			default:
+				ok = false
+			}
+		}
+		if !ok || call == nil {
+			return fn
+		}
+		callee := call.Common().StaticCallee()
+		if callee == nil || callee.Pkg != fn.Pkg || callee.Blocks == nil || len(call.Common().Args) != len(fn.Params) {
+			return fn
+		}
+		for i, a := range call.Common().Args {
+			v := a
+			if u, isU := v.(*ssa.UnOp); isU {
+				// *(&param) for spilled parameters
+				if al, isAl := u.X.(*ssa.Alloc); isAl {
+					_ = al
+					continue
+				}
+			}
+			if v != ssa.Value(fn.Params[i]) {
+				return fn
+			}
+		}
+		fn = callee
+	}
+	return fn
+}
